@@ -107,7 +107,7 @@ func (in *Interp) numUF(name string, ann int, args ...*NumV) *NumV {
 	}
 	in.stubsSeen["num-model:UF "+name] = true
 	r := App(name, IntSort, ts...)
-	if name == "modexp" || name == "modexpi" || name == "modinv" {
+	if name == "modexp" || name == "modexpi" || name == "modinv" || name == "modmul" {
 		// results of modular operations are residues of the modulus (last argument)
 		m := ts[len(ts)-1]
 		in.assumeAxiom(And(Le(IntConstI(0), r), Lt(r, m)))
@@ -414,7 +414,7 @@ func init() {
 		}
 		return in.setNum(a[0], symNum(t, ann))
 	})
-	modBin := func(fc func(a, b, m *big.Int) *big.Int, ft func(a, b *Term) *Term) Intrinsic {
+	modBin := func(fc func(a, b, m *big.Int) *big.Int, ft func(a, b *Term) *Term, ufName string) Intrinsic {
 		return func(in *Interp, fr *Frame, a []Value) Value {
 			in.num(a[0])
 			x, y, m := in.num(a[1]), in.num(a[2]), in.num(a[3])
@@ -424,12 +424,17 @@ func init() {
 			if x.conc() && y.conc() && m.conc() {
 				return in.setNum(a[0], &NumV{C: fc(x.C, y.C, m.C), Ann: m.Ann})
 			}
+			if ufName != "" && !x.conc() && !y.conc() && in.param("ufmodmul", 0) == 1 {
+				// product of two symbolic residues: an uninterpreted function with the range axiom. Over-approximates the
+				// real operation (sound for unsat verdicts) and keeps satisfiable queries out of nonlinear arithmetic.
+				return in.setNum(a[0], in.numUF(ufName, m.Ann, x, y, m))
+			}
 			return in.setNum(a[0], symNum(IntMod(ft(x.term(), y.term()), m.term()), m.Ann))
 		}
 	}
-	N("ModAdd", modBin(func(a, b, m *big.Int) *big.Int { r := new(big.Int).Add(a, b); return r.Mod(r, m) }, Add))
-	N("ModSub", modBin(func(a, b, m *big.Int) *big.Int { r := new(big.Int).Sub(a, b); return r.Mod(r, m) }, Sub))
-	N("ModMul", modBin(func(a, b, m *big.Int) *big.Int { r := new(big.Int).Mul(a, b); return r.Mod(r, m) }, Mul))
+	N("ModAdd", modBin(func(a, b, m *big.Int) *big.Int { r := new(big.Int).Add(a, b); return r.Mod(r, m) }, Add, ""))
+	N("ModSub", modBin(func(a, b, m *big.Int) *big.Int { r := new(big.Int).Sub(a, b); return r.Mod(r, m) }, Sub, ""))
+	N("ModMul", modBin(func(a, b, m *big.Int) *big.Int { r := new(big.Int).Mul(a, b); return r.Mod(r, m) }, Mul, "modmul"))
 	N("ModNeg", func(in *Interp, fr *Frame, a []Value) Value {
 		in.num(a[0])
 		x, m := in.num(a[1]), in.num(a[2])
@@ -514,7 +519,10 @@ func init() {
 			return choice(BoolConst(g.Cmp(big.NewInt(1)) == 0))
 		}
 		in.stubsSeen["num-model:UF isunit"] = true
-		return choice(Eq(App("isunit", IntSort, x.term(), m.term()), IntConstI(1)))
+		u := Eq(App("isunit", IntSort, x.term(), m.term()), IntConstI(1))
+		// 0 is a unit only modulo 1: a unit of a modulus > 1 is non-zero
+		in.assumeAxiom(Implies(And(u, Lt(IntConstI(1), m.term())), Not(Eq(x.term(), IntConstI(0)))))
+		return choice(u)
 	})
 	N("Coprime", func(in *Interp, fr *Frame, a []Value) Value {
 		x, y := in.num(a[0]), in.num(a[1])
